@@ -91,7 +91,10 @@ def gen_case(rng, idx, want_accept):
         if kind == 'unknown-name':
             it[ti] = ['name', 'nosuch_option', 'nosuch_option']
         elif kind == 'bad-value':
-            it[ti] = ['val', rng.choice(['zz!', '"not a number"', "'1.2.3'", '12abc']), 'zz!']
+            sp, dec = rng.choice([('zz!', 'zz!'), ('"not a number"', 'not a number'), ("'1.2.3'", '1.2.3'), ('12abc', '12abc'), ('0x-5', '0x-5'), ('0b-1', '0b-1'),
+                                  ('0x0x1f', '0x0x1f'), ('"0x 5"', '0x 5'), ('"0x+5"', '0x+5'), ('0x', '0x'), ('08', '08'), ('""', ''), ('1e999', '1e999'),
+                                  ('99999999999999999999', '99999999999999999999'), ('maybe', 'maybe'), ('0b2', '0b2'), ('1..5', '1..5'), ('-', '-')])
+            it[ti] = ['val', sp, dec]
         elif kind == 'wrong-token':
             p = rng.choice(['=', '+=', '{', '}', '(', ')', ','])
             it[ti] = [p, p, None]
